@@ -57,9 +57,24 @@ func text(d Doc, side string) string {
 	for i, x := range d.People {
 		w := x.Who % len(given)
 		w2 := (x.Who / len(given)) % len(sur)
-		fmt.Fprintf(&b, "0 @%s@ INDI\n1 NAME %s /%s/\n1 BIRT\n2 DATE %d %s %d\n2 PLAC place:%s:%d\n1 NOTE mark:%s:%d\n1 OCCU fact:%s:%d\n",
+		// facts: a flat one (OCCU), one below an event (PLAC below BIRT is the same town on both sides, so the
+		// two PLAC nodes are equal and merge) and deep ones below nodes that are EQUAL on both sides (DATE, PLAC)
+		fmt.Fprintf(&b, "0 @%s@ INDI\n1 NAME %s /%s/\n1 BIRT\n2 DATE %d %s %d\n3 NOTE deepdate:%s:%d\n2 PLAC town%d\n3 NOTE deepplace:%s:%d\n2 NOTE place:%s:%d\n1 NOTE mark:%s:%d\n1 OCCU fact:%s:%d\n",
 			x.P, given[w], sur[(w+w2)%len(sur)], 1+x.Who%27, []string{"Jan", "Mar", "May", "Jul", "Sep", "Nov"}[x.Who%6], 1600+13*x.Who,
-			side, i+1, side, i+1, side, i+1)
+			side, i+1, x.Who, side, i+1, side, i+1, side, i+1, side, i+1)
+		if x.Who%2 == 0 { // half of the people carry a unique identifier (the same on both sides)
+			fmt.Fprintf(&b, "1 _UID %032X\n", 0xFEED0000+x.Who)
+		}
+		if x.Who%5 == 1 && side == "R" { // the right side knows the event but no detail: a leaf where the left has a subtree
+			fmt.Fprintf(&b, "1 DEAT\n2 PLAC town%d\n", x.Who)
+		} else if x.Who%5 == 1 {
+			fmt.Fprintf(&b, "1 DEAT\n2 PLAC town%d\n3 MAP\n4 LATI deeplati:%s:%d\n", x.Who, side, i+1)
+		}
+		if x.Who%5 == 2 && side == "L" { // and the other way round
+			fmt.Fprintf(&b, "1 DEAT\n2 PLAC town%d\n", x.Who)
+		} else if x.Who%5 == 2 {
+			fmt.Fprintf(&b, "1 DEAT\n2 PLAC town%d\n3 MAP\n4 LATI deeplati:%s:%d\n", x.Who, side, i+1)
+		}
 		for _, f := range d.Fams {
 			if f.Husb == x.P || f.Wife == x.P {
 				fmt.Fprintf(&b, "1 FAMS @%s@\n", f.P)
@@ -94,6 +109,8 @@ type OutPerson struct {
 	P     string `json:"p"`
 	Src   []Src  `json:"src"`
 	Facts bool   `json:"facts"` // holds every fact of every individual it stems from
+	Fams  []string `json:"fams"`  // FAMS values (pointers)
+	Famc  []string `json:"famc"`  // FAMC values
 }
 
 type OutFamily struct {
@@ -121,7 +138,7 @@ func ptr(v string) string {
 	return v
 }
 
-func projectOut(doc *gedcom.Document) Out {
+func projectOut(doc *gedcom.Document, deep map[string]bool) Out {
 	o := Out{OK: true, People: []OutPerson{}, Fams: []OutFamily{}}
 	txt := doc.String()
 	re, err := gedcom.NewDocumentFromString(txt)
@@ -133,16 +150,25 @@ func projectOut(doc *gedcom.Document) Out {
 	for _, n := range re.Nodes() {
 		switch n.Tag().Tag() {
 		case "INDI":
-			p := OutPerson{P: n.Pointer(), Src: []Src{}, Facts: true}
+			p := OutPerson{P: n.Pointer(), Src: []Src{}, Facts: true, Fams: []string{}, Famc: []string{}}
 			g := n.GEDCOMString(0)
 			for _, k := range n.Nodes() {
+				switch k.Tag().Tag() {
+				case "FAMS":
+					p.Fams = append(p.Fams, ptr(k.Value()))
+				case "FAMC":
+					p.Famc = append(p.Famc, ptr(k.Value()))
+				}
 				if m := markRe.FindStringSubmatch(k.Value()); m != nil && m[2] == "" && k.Tag().Tag() == "NOTE" {
 					idx, _ := strconv.Atoi(m[3])
 					p.Src = append(p.Src, Src{m[1], idx})
-					for _, want := range []string{fmt.Sprintf("1 OCCU fact:%s:%d\n", m[1], idx), fmt.Sprintf("2 PLAC place:%s:%d\n", m[1], idx)} {
-						if !strings.Contains(g+"\n", want) {
+					for _, want := range []string{"1 OCCU fact:", "2 NOTE place:", "3 NOTE deepdate:", "3 NOTE deepplace:"} {
+						if !strings.Contains(g+"\n", fmt.Sprintf("%s%s:%d\n", want, m[1], idx)) {
 							p.Facts = false
 						}
+					}
+					if deep[fmt.Sprintf("%s:%d", m[1], idx)] && !strings.Contains(g+"\n", fmt.Sprintf("4 LATI deeplati:%s:%d\n", m[1], idx)) {
+						p.Facts = false
 					}
 				}
 			}
@@ -170,7 +196,7 @@ func projectOut(doc *gedcom.Document) Out {
 	return o
 }
 
-func guard(f func() (*gedcom.Document, error)) (o Out) {
+func guard(deep map[string]bool, f func() (*gedcom.Document, error)) (o Out) {
 	defer func() {
 		if r := recover(); r != nil {
 			o = Out{Err: "panic: " + fmt.Sprint(r), People: []OutPerson{}, Fams: []OutFamily{}}
@@ -183,7 +209,7 @@ func guard(f func() (*gedcom.Document, error)) (o Out) {
 	if doc == nil {
 		return Out{Err: "nil document", People: []OutPerson{}, Fams: []OutFamily{}}
 	}
-	return projectOut(doc)
+	return projectOut(doc, deep)
 }
 
 type Obs struct {
@@ -197,7 +223,16 @@ type Obs struct {
 func run(c Case) Obs {
 	o := Obs{Left: c.Left, Right: c.Right, Default: c.Threshold == 0}
 	lt, rt := text(c.Left, "L"), text(c.Right, "R")
-	o.Lib = guard(func() (*gedcom.Document, error) {
+	deep := map[string]bool{} // which input individuals carry the deep LATI fact
+	for _, side := range []struct {
+		name string
+		t    string
+	}{{"L", lt}, {"R", rt}} {
+		for _, m := range regexp.MustCompile(`deeplati:([LR]:\d+)`).FindAllStringSubmatch(side.t, -1) {
+			deep[m[1]] = true
+		}
+	}
+	o.Lib = guard(deep, func() (*gedcom.Document, error) {
 		l, err := gedcom.NewDocumentFromString(lt)
 		if err != nil {
 			return nil, err
@@ -213,7 +248,7 @@ func run(c Case) Obs {
 		}
 		return gedcom.MergeDocumentsAndIndividuals(l, r, gedcom.EqualityMergeFunction, opts)
 	})
-	o.Query = guard(func() (*gedcom.Document, error) {
+	o.Query = guard(deep, func() (*gedcom.Document, error) {
 		l, err := gedcom.NewDocumentFromString(lt)
 		if err != nil {
 			return nil, err
@@ -346,7 +381,11 @@ func Gen(w io.Writer, seed int64, n int) error {
 			}
 		default: // independently edited copy
 			right = cloneDoc(left)
-			switch rng.Intn(4) {
+			switch rng.Intn(5) {
+			case 4: // the families were re-entered under other pointers, the individuals kept theirs
+				for k := range right.Fams {
+					right.Fams[k].P = "Y" + right.Fams[k].P
+				}
 			case 0: // pointers kept
 			case 1: // all renumbered
 				rename(&right, func(p string) string { return "X" + p }, true)
